@@ -52,7 +52,14 @@ func genC20(seed uint64, tier string) *Tape {
 		case x < wFault+8:
 			t.Steps = append(t.Steps, Step{Op: "mode", Node: rng.IntN(n), Kind: "ok"})
 		case x < wFault+8+wLeader:
-			t.Steps = append(t.Steps, Step{Op: "leader", Node: rng.IntN(n)})
+			switch rng.IntN(8) {
+			case 0:
+				t.Steps = append(t.Steps, Step{Op: "leader", Node: -1})
+			case 1, 2:
+				t.Steps = append(t.Steps, Step{Op: "member", Node: rng.IntN(n), K: rng.IntN(2)})
+			default:
+				t.Steps = append(t.Steps, Step{Op: "leader", Node: rng.IntN(n)})
+			}
 		case x < wFault+8+wLeader+8:
 			t.Steps = append(t.Steps, Step{Op: "sleep", X: int64(rng.IntN(90000))})
 		case x < wFault+8+wLeader+8+25:
@@ -86,11 +93,23 @@ type rClient struct {
 	// endpoint object for u was (re)created; a health check that started before
 	// it reports to the discarded object
 	created map[string]int
+	// typ[u]: node type of the list's endpoint object for u; detached: the
+	// primary pointer's object is not the list's object for that URL
+	typ      map[string]int
+	detached bool
 }
+
+const (
+	tPrimary = iota + 1
+	tSecondary
+)
 
 func (m *rClient) update(primary string, secondaries []string, at int) {
 	if m.created == nil {
 		m.created = map[string]int{}
+	}
+	if m.typ == nil {
+		m.typ = map[string]int{}
 	}
 	old := map[string]bool{}
 	for _, e := range m.endpoints {
@@ -98,56 +117,105 @@ func (m *rClient) update(primary string, secondaries []string, at int) {
 	}
 	var eps []string
 	if primary != "" {
-		m.primary = primary
+		m.primary, m.detached = primary, false
 		eps = append(eps, primary)
 		m.state[primary] = stAlive // the primary endpoint object is always created anew
 		m.created[primary] = at
+		m.typ[primary] = tPrimary
 	}
 	for _, s := range secondaries {
-		if s == "" || s == primary {
+		if s == "" {
 			continue
 		}
-		if !old[s] {
+		if old[s] {
+			m.typ[s] = tSecondary // the object is taken over, a former primary becomes a secondary
+		} else {
 			m.state[s] = stAlive
 			m.created[s] = at
+			m.typ[s] = tSecondary
+			if s == m.primary && primary == "" {
+				m.detached = true // the list got a new object; the primary pointer keeps the old one
+			}
 		}
 		eps = append(eps, s)
+	}
+	if primary == "" && m.primary != "" {
+		in := false
+		for _, e := range eps {
+			in = in || e == m.primary
+		}
+		if !in {
+			m.detached = true // no leader named: the pointer stays, its object left the list
+		}
 	}
 	m.endpoints = eps
 }
 
-// excluded says why read preference pref forbids u right now ("" = permitted),
-// using only what is known for certain.
-func (m *rClient) excluded(pref client.ReadPref, u string) string {
-	known := false
+// st is what is known for certain about the endpoint object a selection of u
+// would use. A primary pointer whose object is no longer the list's object for
+// that URL has its own marks, which the network does not reveal.
+func (m *rClient) st(u string) int {
+	if m.detached && u == m.primary {
+		return stUnknown
+	}
+	return m.state[u]
+}
+
+func (m *rClient) inList(u string) bool {
 	for _, e := range m.endpoints {
 		if e == u {
-			known = true
+			return true
 		}
 	}
-	if !known {
+	return false
+}
+
+func (m *rClient) secondaryAlive() string {
+	for _, e := range m.endpoints {
+		if m.typ[e] == tSecondary && m.st(e) == stAlive {
+			return e
+		}
+	}
+	return ""
+}
+
+// excluded says why read preference pref forbids u right now ("" = permitted),
+// using only what is known for certain. The client keeps two notions apart:
+// the primary *pointer* (kept when an update names no leader) and the node type
+// of each endpoint in the list (a former primary listed as secondary is one).
+func (m *rClient) excluded(pref client.ReadPref, u string) string {
+	isSec := m.inList(u) && m.typ[u] == tSecondary
+	isPrim := m.primary != "" && u == m.primary
+	if !m.inList(u) && !isPrim {
 		return "it is not part of the topology the client was given"
 	}
 	switch pref {
 	case client.Primary:
-		if u != m.primary {
+		if !isPrim {
 			return "it is not the primary"
 		}
 	case client.Secondary:
-		if u == m.primary {
-			return "it is the primary"
+		if !isSec {
+			return "it is not a secondary"
 		}
 	case client.PrimaryPreferred:
-		if u != m.primary && m.primary != "" && m.state[m.primary] == stAlive {
-			return "the primary is alive"
+		if !isPrim {
+			if m.primary != "" && m.st(m.primary) == stAlive {
+				return "the primary is alive"
+			}
+			if !isSec {
+				return "it is neither the primary nor a secondary"
+			}
 		}
 	case client.SecondaryPreferred:
-		if u == m.primary {
-			for _, e := range m.endpoints {
-				if e != m.primary && m.state[e] == stAlive {
-					return "secondary " + e + " is alive"
-				}
+		if !isSec {
+			if e := m.secondaryAlive(); e != "" {
+				return "secondary " + e + " is alive"
 			}
+		}
+	default: // Any: round-robin over the list only
+		if !m.inList(u) {
+			return "it is not in the endpoint list"
 		}
 	}
 	return ""
@@ -155,20 +223,28 @@ func (m *rClient) excluded(pref client.ReadPref, u string) string {
 
 // liveCandidate returns an endpoint that is certainly alive and permitted.
 func (m *rClient) liveCandidate(pref client.ReadPref) string {
-	for _, e := range m.endpoints {
-		if m.state[e] != stAlive {
-			continue
+	primAlive := ""
+	if m.primary != "" && m.st(m.primary) == stAlive {
+		primAlive = m.primary
+	}
+	switch pref {
+	case client.Primary:
+		return primAlive
+	case client.Secondary:
+		return m.secondaryAlive()
+	case client.PrimaryPreferred:
+		if primAlive != "" {
+			return primAlive
 		}
-		switch pref {
-		case client.Primary:
-			if e == m.primary {
-				return e
-			}
-		case client.Secondary:
-			if e != m.primary {
-				return e
-			}
-		default:
+		return m.secondaryAlive()
+	case client.SecondaryPreferred:
+		if e := m.secondaryAlive(); e != "" {
+			return e
+		}
+		return primAlive
+	}
+	for _, e := range m.endpoints {
+		if m.st(e) == stAlive {
 			return e
 		}
 	}
@@ -364,7 +440,7 @@ func execC20(r *Run) {
 					// alive again, so a dead endpoint may legitimately be tried again —
 					// unless some endpoint was certainly alive and permitted, in which
 					// case no selection can have failed in between.
-					if model.state[u] == stDead && (!revive || model.liveCandidate(pref) != "") {
+					if model.st(u) == stDead && (!revive || model.liveCandidate(pref) != "") {
 						r.Fail("read-selection", "%s: a read was sent to %s, which the client had marked dead (preference %d; certainly alive and permitted: %q)", what, u, pref, model.liveCandidate(pref))
 					}
 					if why := model.excluded(pref, u); why != "" {
@@ -377,7 +453,7 @@ func execC20(r *Run) {
 			touched[u] = true
 			// a request to an endpoint the model holds dead, not flagged above, means
 			// a selection failed unseen and revived everything
-			if model.state[u] == stDead {
+			if model.st(u) == stDead {
 				blur()
 			}
 			applyHealth(q.doneSeq)
@@ -479,14 +555,34 @@ func execC20(r *Run) {
 			for _, nm := range names {
 				net.hosts[nm+":8800"].mode = "ok"
 			}
+			view.mu.Lock()
+			for _, nm := range names {
+				view.up[nm] = true
+			}
+			if view.leader == "" {
+				view.leader = names[0]
+			}
+			view.mu.Unlock()
 			r.Logf("HEAL")
 			healed = true
 		case "leader":
 			view.mu.Lock()
-			view.leader = names[s.Node%n]
+			if s.Node < 0 {
+				view.leader = "" // an election is in progress: nobody knows a leader
+			} else {
+				view.leader = names[s.Node%n]
+			}
+			r.Logf("LEADER %q", view.leader)
 			view.mu.Unlock()
-			r.Logf("LEADER %s", names[s.Node%n])
 			r.Count("fault.leader_moves")
+		case "member":
+			// the cluster metadata loses / regains a node: it is no longer listed
+			// in the shards document (also when it is the leader)
+			view.mu.Lock()
+			view.up[names[s.Node%n]] = s.K == 1
+			view.mu.Unlock()
+			r.Logf("MEMBER %s listed=%v", names[s.Node%n], s.K == 1)
+			r.Count("fault.metadata_member_toggle")
 		case "sleep":
 			time.Sleep(time.Duration(s.X) * time.Millisecond)
 			synctest.Wait()
@@ -526,7 +622,10 @@ func execC20(r *Run) {
 				if postHealAdds == 0 {
 					// can the client get out of "primary is dead" at all? health checks
 					// revive endpoints; discovery needs an endpoint it may still ask
-					canRecover = r.Cfg("fix_health") == 1 || (r.Cfg("fix_discovery") == 1 && (revive || liveBeforeCall != ""))
+					// (health checks cover the endpoint list only: a primary pointer whose
+					// object left the list — an update that named no known leader — is
+					// never checked again and needs discovery)
+					canRecover = (r.Cfg("fix_health") == 1 && !model.detached) || (r.Cfg("fix_discovery") == 1 && (revive || liveBeforeCall != ""))
 				}
 				postHealAdds++
 				if cerr == nil {
@@ -562,19 +661,19 @@ func execC20(r *Run) {
 			stateKey := func() string {
 				k := model.primary + "|"
 				for _, e := range model.endpoints {
-					k += fmt.Sprintf("%s=%d,", e, model.state[e])
+					k += fmt.Sprintf("%s=%d/%d,", e, model.st(e), model.typ[e])
 				}
 				return k
 			}
-			certain := true
+			certain := !model.detached
 			var permitted []string
 			for _, e := range model.endpoints {
-				if model.state[e] == stUnknown {
+				if model.st(e) == stUnknown {
 					certain = false
 				}
 			}
 			for _, e := range model.endpoints {
-				if model.state[e] == stAlive && model.excluded(pref, e) == "" {
+				if model.st(e) == stAlive && model.excluded(pref, e) == "" {
 					permitted = append(permitted, e)
 				}
 			}
